@@ -53,6 +53,15 @@ def scenarios(thorough=False):
     out.append(S("map2-mc1-task-pass", {"StartAt": "M", "States": {"M": {"Type": "Map", "ItemsPath": "$.items", "MaxConcurrency": 1, "End": True,
         "Iterator": {"StartAt": "T", "States": {"T": T("g", Next="P"), "P": {"Type": "Pass", "End": True}}}}}},
         {"items": [1, 2]}, {"g": [("ok",)]}, {"g": 10}))
+    # a Parallel state whose failure is retried while the nested Parallel state of the other branch still has a Task outstanding,
+    # whose (late) error the Retry does not match: crash-free it is absorbed by the attempt that is over; after a crash that
+    # record is gone (C04-F9)
+    npar = {"Type": "Parallel", "End": True, "Branches": [{"StartAt": "X", "States": {"X": T("fx")}}]}
+    out.append(S("par-retry-vs-late-nested-fail", {"StartAt": "P", "States": {
+        "P": {"Type": "Parallel", "Next": "Z", "Retry": [{"ErrorEquals": ["EA"], "IntervalSeconds": 1, "MaxAttempts": 1, "BackoffRate": 1.0}],
+              "Branches": [{"StartAt": "A", "States": {"A": T("fa")}}, {"StartAt": "N", "States": {"N": npar}}]},
+        "Z": {"Type": "Pass", "End": True}}},
+        {"x": 1}, {"fa": [("err", "EA", "m"), ("ok",)], "fx": [("err", "EX", "m"), ("ok",)]}, {"fa": 5, "fx": 40}))
     # a synchronous child execution: the parent's pending request is keyed by the child's execution ARN, which has to be
     # the same again when the parent's Task event is redelivered (with and without an explicit child Name); the child's
     # result reaches the parent by a call inside the engine (C04-F8: the variant whose child goes on after its Task ends in
@@ -567,7 +576,7 @@ def run(chk):
     chk.cov["streams"]["between_handler_crash_points"] = n_between
     chk.cov["streams"]["broker_operation_crash_points"] = n_mid
     chk.cov["rule"] = ("%d scenarios (Task+Wait, two Tasks, Retry, Catch->Fail, Choice+Wait, Parallel success, Map with MaxConcurrency "
-                       "(all-Task iterations; Task->Pass iterations over two batches), Parallel with a failing branch, synchronous child "
+                       "(all-Task iterations; Task->Pass iterations over two batches), Parallel with a failing branch, Parallel retried while a nested Parallel of another branch fails late, synchronous child "
                        "executions (unnamed, named, child ending in a handler of its own)%s) x {stores shared across the restart "
                        "(Redis-like), executions store lost (file configuration)} x every crash point between two handler invocations "
                        "of the canonical run (same status/output, <= 1 request per correlation id, one terminal notification, the same "
